@@ -322,4 +322,78 @@ pub fn send_to_gui(message: &str) {
                 }
             }""", "R17.2", "isready with trailing tokens unanswered"),
     ("C17", "quit-returns-to-loop", UC, """            "quit" => process::exit(1),""", """            "quit" => info!("bye"),""", "R17.2", "quit ignored"),
+
+    # ---------------- castling tables (C01 R1.2, C02 R2.6)
+    ("C01", "wk-transit-g1-unchecked", MG,
+     """    if is_check_cords(board, White, Point(BOARD_END - 1, BOARD_END - 3))
+        || is_check_cords(board, White, Point(BOARD_END - 1, BOARD_END - 2))
+    {""",
+     """    if is_check_cords(board, White, Point(BOARD_END - 1, BOARD_END - 3)) {""", "R1.2", "white king may castle into an attacked g1"),
+    ("C01", "bq-transit-off-by-one", MG,
+     """    if is_check_cords(board, Black, Point(BOARD_START, BOARD_START + 2))
+        || is_check_cords(board, Black, Point(BOARD_START, BOARD_START + 3))""",
+     """    if is_check_cords(board, Black, Point(BOARD_START, BOARD_START + 1))
+        || is_check_cords(board, Black, Point(BOARD_START, BOARD_START + 3))""", "R1.2", "b8 tested instead of c8"),
+    ("C01", "wq-b1-not-required-empty", MG,
+     """    if !(board.board[BOARD_END - 1][BOARD_START + 1]).is_empty()
+        || !(board.board[BOARD_END - 1][BOARD_START + 2]).is_empty()
+        || !(board.board[BOARD_END - 1][BOARD_START + 3]).is_empty()
+    {
+        return false;
+    }
+    // check that the king currently isn't in check
+    if is_check(board, White) {""",
+     """    if !(board.board[BOARD_END - 1][BOARD_START + 2]).is_empty()
+        || !(board.board[BOARD_END - 1][BOARD_START + 3]).is_empty()
+    {
+        return false;
+    }
+    // check that the king currently isn't in check
+    if is_check(board, White) {""", "R1.2", "queen-side castling over a piece on b1"),
+    ("C01", "bk-wrong-flag", MG, """    if !board.black_king_side_castle {
+        return false;
+    }""", """    if !board.black_queen_side_castle {
+        return false;
+    }""", "R1.2", "black king side tests the queen-side right"),
+    ("C01", "wk-check-other-colour", MG,
+     """    if is_check(board, White) {
+        return false;
+    }
+    //check that the squares required for castling are not threatened
+    if is_check_cords(board, White, Point(BOARD_END - 1, BOARD_END - 3))""",
+     """    if is_check(board, Black) {
+        return false;
+    }
+    //check that the squares required for castling are not threatened
+    if is_check_cords(board, White, Point(BOARD_END - 1, BOARD_END - 3))""", "R1.2", "castling out of check allowed"),
+    ("C02", "castle-king-dest-off", MG, """        new_board.black_king_location = Point(BOARD_START, BOARD_END - 2);""", """        new_board.black_king_location = Point(BOARD_START, BOARD_END - 3);""", "R2.6", "black king-side castle puts the king on f8"),
+    ("C02", "castle-rook-dest-off", MG,
+     """            Point(BOARD_END - 1, BOARD_START),
+            Point(BOARD_END - 1, BOARD_START + 3),
+            zobrist_hasher,
+        );
+        new_moves.push(new_board);""",
+     """            Point(BOARD_END - 1, BOARD_START),
+            Point(BOARD_END - 1, BOARD_START + 2),
+            zobrist_hasher,
+        );
+        new_moves.push(new_board);""", "R2.6", "white queen-side rook lands on c1 (on top of the king)"),
+    ("C02", "castle-keeps-other-right", MG,
+     """        new_board.take_away_castling_rights(CastlingType::WhiteKingSide, zobrist_hasher);
+        new_board.take_away_castling_rights(CastlingType::WhiteQueenSide, zobrist_hasher);
+        new_board.white_king_location = Point(BOARD_END - 1, BOARD_END - 2);""",
+     """        new_board.take_away_castling_rights(CastlingType::WhiteKingSide, zobrist_hasher);
+        new_board.white_king_location = Point(BOARD_END - 1, BOARD_END - 2);""", "R2.6", "after O-O White keeps the queen-side right"),
+    ("C02", "castle-alg-const-swapped", MG, """        new_board.last_move = BLACK_QUEEN_SIDE_CASTLE_ALG;""", """        new_board.last_move = BLACK_KING_SIDE_CASTLE_ALG;""", "R2.6", "O-O-O printed as e8g8"),
+    ("C02", "king-cache-after-gate", MG,
+     """        // update king location if we are moving the king
+        if kind == King {
+            match color {
+                White => new_board.white_king_location = mov,
+                Black => new_board.black_king_location = mov,
+            }
+        }
+
+        let target_square""",
+     """        let target_square""", "R2.5", "king cache never updated for king moves (kills tests? control)"),
 ]
